@@ -31,6 +31,41 @@ claim('C08',
       'abstract interpretation of kernels to rational normal forms + finite decision-table enumeration',
       'DESIGN.md §4 C08')
 
+claim('C13',
+      'Static analysis: each of the 10 spectral indices, on both the numpy and the dask path, is traced from the '
+      'public wrapper through the backend table (and map_blocks) to its per-cell kernel; the kernel is interpreted '
+      'symbolically and the stored value, rewritten in the PUBLIC parameter names, is compared (exact rational '
+      'normal form) with the published formula; decided also: store guarded by `divisor != 0` with exactly the '
+      'divisor\'s zero set, NaN-initialised output, full loop ranges, footprint {(0,0)}, float cast of every band '
+      'before arithmetic, validate_arrays over all bands, same kernel on both backends, true_color alpha '
+      'condition, channel order and sigmoid expression. Band mix-ups between same-shaped inputs, dropped guards '
+      'and integer arithmetic are refuted for all inputs at once; single-precision rounding is not decided.',
+      'Trusted: formula table (DESIGN Appendix B1); numba compiles kernels as written; map_blocks applies the block '
+      'function per aligned block. ARVI and SAVI deviate from the literature (known findings D12, pinned by tests).',
+      'symbolic kernel interpretation + public-name binding through the call graph, compared with a formula table',
+      'DESIGN.md §4 C13')
+claim('C17',
+      'Static analysis of xrspatial/local.py: decides for every input the structural premises of the per-cell '
+      'definitions: lock-step layer iteration in fixed C order (agreeing with the row-major reference list and the '
+      '(-1, ncols) reshape), the comparator table of the three frequency operators ({>, ==, <} oriented as '
+      'ref OP item, hence they partition the layers), a NaN test dominating every per-cell result, first-occurrence '
+      '1-based min/max index, ascending sort + ref-1 for rank, first-occurrence numbering from 1 with inverse map '
+      'in attrs for combine, and the statistic-name table of cell_stats.',
+      'Trusted: semantics of np.nditer(order=), list.index, min/max, sorted; reshape row-major.',
+      'AST dataflow/pattern rules specific to local.py (iteration order, comparator table, dominance of NaN guard)',
+      'DESIGN.md §4 C17')
+claim('C18',
+      'Static analysis of the trim/crop scan kernels reached from the public functions: decides the premises of '
+      'the bounding-box argument for all inputs: four scans (rows asc/desc, columns asc/desc) each recording its '
+      'bound before examining the line and stopping at the first line with a kept cell, full-line inner loops with '
+      'axis-correct data[row, col] reads, keep test = equals no excluded value with NaN-aware equality (trim) / '
+      'equals a listed id (crop), return order, and the result being the basic slice [top:bottom+1, left:right+1] '
+      'of the right raster returned unmodified except for its name.',
+      'Trusted: the half-page argument that these premises give the bounding box of kept cells; xarray basic '
+      'slicing keeps cells, coordinates and attrs. Behaviour when nothing is kept is not decided.',
+      'structural scan-skeleton extraction + NaN-aware-equality recognition through helper calls',
+      'DESIGN.md §4 C18')
+
 ALL = ['C%02d' % i for i in range(1, 20)]
 
 
